@@ -11,6 +11,9 @@
 
 extern crate std;
 
+use multiversx_sc::api::{CryptoApi, CryptoApiImpl, ManagedTypeApi};
+use multiversx_sc::types::{ManagedBuffer, ManagedType};
+
 use std::cell::RefCell;
 use std::collections::VecDeque;
 use std::vec::Vec;
@@ -73,4 +76,14 @@ pub fn tap_draw(seed_before: Vec<u8>, index_before: usize, raw: usize) -> usize 
         h.draws.push((seed_before, index_before, raw));
         raw
     })
+}
+
+/// `Random::hash_seed` goes through raw (`i32`) handles, which the Rust debug VM cannot
+/// produce from its own handle type ("Cast type mismatch"): off-chain the re-hash is therefore
+/// not executable as written.  This performs the same `sha256_managed(seed, seed)` call through
+/// typed handles, so that selections consuming more than eight draws can run under the harness.
+pub fn typed_hash_seed<M: ManagedTypeApi + CryptoApi>(seed: &mut ManagedBuffer<M>) -> bool {
+    let handle = seed.get_handle();
+    M::crypto_api_impl().sha256_managed(handle.clone(), handle);
+    true
 }
